@@ -22,6 +22,10 @@ LAYERS: Dict[str, Dict[str, Any]] = {
     # precedence, associativity, parentheses, unary minus, ** chains, conditionals
     'shape3': dict(MaxStmts=1, MaxLeaves=3, MaxNodes=6, MaxNames=2, Kinds='VOnly', Idxs='ShapeIdxs', LhsIdxs='Lhs0', Nums='NoStr',
                    BinOps='ShapeOps', CmpOps='LtOnly', Funcs1='NoStr', Funcs2='MaxOnly', UseNeg='TRUE', UseParen='TRUE', UseCond='TRUE'),
+    # boolean keywords (and / or / not) around comparisons
+    'bool': dict(MaxStmts=1, MaxLeaves=3, MaxNodes=6, MaxNames=2, Kinds='VOnly', Idxs='Lhs0', LhsIdxs='Lhs0', Nums='NoStr',
+                 BinOps='PlusOnly', CmpOps='LtOnly', Funcs1='NoStr', Funcs2='NoStr', UseNeg='FALSE', UseParen='FALSE', UseCond='TRUE',
+                 BoolOps='AndOr', UseNot='TRUE'),
     'shape3_small': dict(MaxStmts=1, MaxLeaves=3, MaxNodes=5, MaxNames=1, Kinds='VOnly', Idxs='Lhs0', LhsIdxs='Lhs0', Nums='NoStr',
                          BinOps='ShapeOps', CmpOps='LtOnly', Funcs1='NoStr', Funcs2='MaxOnly', UseNeg='TRUE', UseParen='TRUE', UseCond='TRUE'),
     'shape4': dict(MaxStmts=1, MaxLeaves=4, MaxNodes=8, MaxNames=1, Kinds='VOnly', Idxs='Lhs0', LhsIdxs='Lhs0', Nums='NoStr',
@@ -42,7 +46,8 @@ LAYERS: Dict[str, Dict[str, Any]] = {
                         BinOps='ArithOps', CmpOps='NoStr', Funcs1='FortF1', Funcs2='PairF2', UseNeg='TRUE', UseParen='TRUE', UseCond='FALSE'),
     # everything, sampled
     'sim': dict(MaxStmts=5, MaxLeaves=5, MaxNodes=10, MaxNames=5, Kinds='VOnly', Idxs='SimIdxs', LhsIdxs='Lhs01', Nums='SimNums',
-                BinOps='ArithOps', CmpOps='AllCmps', Funcs1='PairF1', Funcs2='PairF2', UseNeg='TRUE', UseParen='TRUE', UseCond='TRUE'),
+                BinOps='ArithOps', CmpOps='AllCmps', Funcs1='PairF1', Funcs2='PairF2', UseNeg='TRUE', UseParen='TRUE', UseCond='TRUE',
+                BoolOps='AndOr', UseNot='TRUE'),
 }
 
 
@@ -53,6 +58,8 @@ def layer_cfg(layer: str, invariants: Sequence[str], emit: bool = True) -> str:
         lines.append(f'  {k} = {c[k]}')
     for k in ('Kinds', 'Idxs', 'LhsIdxs', 'Nums', 'BinOps', 'CmpOps', 'Funcs1', 'Funcs2'):
         lines.append(f'  {k} <- {c[k]}')
+    lines.append(f"  BoolOps <- {c.get('BoolOps', 'NoStr')}")
+    lines.append(f"  UseNot = {c.get('UseNot', 'FALSE')}")
     for k in ('UseNeg', 'UseParen', 'UseCond'):
         lines.append(f'  {k} = {c[k]}')
     lines += ['  Shard = {shard}', '  NShards = {nshards}', 'CONSTRAINT ShardC']
@@ -63,7 +70,7 @@ def layer_cfg(layer: str, invariants: Sequence[str], emit: bool = True) -> str:
     return '\n'.join(lines) + '\n'
 
 
-SMALL_LAYERS = {'term': 2, 'merge2_small': 4, 'shape3_small': 8, 'fortran_small': 8, 'pair_small': 8, 'merge3': 8, 'merge2': 8}
+SMALL_LAYERS = {'bool': 8, 'term': 2, 'merge2_small': 4, 'shape3_small': 8, 'fortran_small': 8, 'pair_small': 8, 'merge3': 8, 'merge2': 8}
 
 
 def emit_layer(ctx: core.Ctx, layer: str, *, timeout: int = 3600) -> List[Dict[str, Any]]:
